@@ -269,11 +269,19 @@ func (in *Interp) invokeDeferred(s *State, th *Thread, f *Frame, d *deferRec) {
 		}
 		c.args = d.args
 	}
+	depth := len(th.frames)
 	forks := in.dispatch(s, th, f, c, d.pos, nil, retStay)
 	if len(forks) > 0 {
 		in.unsup("fork inside deferred builtin/intrinsic dispatch")
 	}
+	if len(th.frames) == depth+1 {
+		th.top().deferred = true
+	}
 }
+
+// c0DeferredBuiltin: `defer recover()` itself (the builtin deferred directly) runs in the frame being
+// unwound; it is treated like a direct call, as before.
+func c0DeferredBuiltin(f *Frame) bool { return f.unwinding }
 
 func (in *Interp) goInstr(s *State, f *Frame, x *ssa.Go) {
 	c := in.resolve(s, f, x.Common(), x)
@@ -406,7 +414,9 @@ func (in *Interp) builtin(s *State, th *Thread, f *Frame, name string, at ssa.In
 	case "panic":
 		panic(goPanic{msg: fmt.Sprintf("panic(%s) at %s", in.show(args[0]), in.pos(at)), val: args[0]})
 	case "recover":
-		if th.panicking {
+		// recover stops a panic only when called directly by a deferred function (Go spec); called from a
+		// function that the deferred function calls, or outside a panic, it returns nil
+		if th.panicking && (f.deferred || c0DeferredBuiltin(f)) {
 			th.panicking = false
 			v := th.panicVal
 			th.panicVal = nil
